@@ -48,24 +48,23 @@ def classify(c, code, out):
     else:
         rel = n - (c["origin"] + c["off"])
         est = 3 if mode == 16 else est
-    in16 = -32768 <= rel <= 32767
+    d8 = rel - 2                       # the rel8 displacement; the form is chosen from it (fix e07e6de)
+    in16 = -32768 <= d8 <= 32767
     if mode == 32:
         # only the rel8 forms towards an already-known address are right in 32-bit mode: pass 1 assumes
         # rel32 sizes (5/6 bytes) while codegen emits rel8 / prefix-less rel16 forms
-        if direction in ("bwd", "num") and kind != "CALL" and -126 <= rel <= 127:
+        if direction in ("bwd", "num") and kind != "CALL" and -128 <= d8 <= 127:
             return None
         return "C04-bits32-near-forms"
-    if kind in ("JMP", "JCC") and direction == "fwd" and rel > 127:
+    if kind in ("JMP", "JCC") and direction == "fwd" and d8 > 127:
         return "C04-bits16-forward-beyond-short"          # pass 1 counted 2 bytes, codegen emits 3/4: target label drifts
-    if kind in ("JMP", "JCC") and rel in (-128, -127):
-        return "C04-rel8-backward-boundary"               # getOffsetSize on the distance from the START of the instruction
     if kind == "CALL" and not (-32768 <= rel - 5 <= 32767):
         return "C04-call-rel32-16bit-no-66"
     if kind == "JMP" and not in16:
         return "C04-jmp-rel32-16bit-off-by-one"
     if kind == "JCC" and not in16:
         return "C04-jcc-rel32-16bit-no-66"
-    if direction == "num" and kind in ("JMP", "JCC") and rel > 127:
+    if direction == "num" and kind in ("JMP", "JCC") and d8 > 127:
         return "C04-bits16-numeric-target-size"           # pass 1 always counts 3 bytes for a numeric target; Jcc near is 4
     return None
 
